@@ -18,9 +18,9 @@ class Balance(V.Family):
             "distinct_nontrivial counts distinct (action,outcome,return,signer class,amount class,address kinds,#notifications,"
             "state changed) tuples among steps that changed state or were refused for a reason other than a missing Alphabet witness")
     tiers = {
-        "quick": dict(mc=[("BalanceMC.tla", "Balance_quick.cfg")], mc_timeout=600,
+        "quick": dict(mc=[("BalanceMC.tla", "Balance_quick.cfg"), ("BalanceMC.tla", "Balance_nested.cfg")], mc_timeout=600,
                       sim=("BalanceMC.tla", "Balance_sim.cfg", 60, 25), sim_keep=150, nrand=150, shards=4),
-        "thorough": dict(mc=[("BalanceMC.tla", "Balance_thorough.cfg")], mc_timeout=3000,
+        "thorough": dict(mc=[("BalanceMC.tla", "Balance_thorough.cfg"), ("BalanceMC.tla", "Balance_nested.cfg")], mc_timeout=3000,
                          sim=("BalanceMC.tla", "Balance_sim.cfg", 1500, 25), sim_keep=4000, nrand=6000, shards=14),
     }
 
